@@ -443,15 +443,22 @@ def r_timewindow(repo, rep):
     if n.kind == 'test':
       ex = rd_.expand(n, n.expr)[0]
       want_rel = '%s.first_day > %s.last_day' % (selfn, selfn)
-      if want_rel in pathcond.asserted_forms(ex, True):
+      also = '%s.last_day < %s.first_day' % (selfn, selfn)           # the same relation read from the other side
+      fa_t, fa_f = pathcond.asserted_forms(ex, True), pathcond.asserted_forms(ex, False)
+      if want_rel in fa_t or also in fa_t:
         branch = 'true'
-      elif want_rel in pathcond.asserted_forms(ex, False):
+      elif want_rel in fa_f or also in fa_f:
         branch = 'false'
       else:
         continue
       guards.append((n, branch))
   if not guards:
     weak = [n for n in g.nodes if n.kind == 'test' and 'first_day' in norm(rd_.expand(n, n.expr)[0]) and 'last_day' in norm(rd_.expand(n, n.expr)[0])]
+    wx = rd_.expand(weak[0], weak[0].expr)[0] if weak else None
+    simple = weak and isinstance(au.strip_not(wx)[0], ast.Compare) and len(au.strip_not(wx)[0].ops) == 1 and not au.aliens(wx, (selfn,))
+    if weak and not simple:
+      rep.undecided('R4/ordering-guard', 'TimeWindow.__post_init__', 'the test `%s` relates first_day and last_day in a form that is not a single comparison' % norm(wx)[:80], f.loc(weak[0].expr))
+      return
     if weak:
       rep.violation('R4/ordering-guard', f.qualname, norm(weak[0].expr),
                     'the ordering test `%s` is not "first_day > last_day": reversed ranges pass or single days are rejected' % norm(weak[0].expr), f.loc(weak[0].expr))
